@@ -103,6 +103,7 @@ def step (st : St) (toks : List String) : St × String :=
   | ["release"] => upd (backAll st.L (releaseAll st.L st.s))
   | ["saveblock"] => upd (reverifyAll st.s)
   | ["vblock", k] => upd (blockVerified st.L (Proto.natOf k) st.s)
+  | ["race-saveblock", _] => (st, "ok")   -- schedule dependent on the real server: only the property oracle looks at it
   | ["state"] => (st, showSt st.s)
   | _ => (st, "bad-op")
 
